@@ -277,6 +277,35 @@ def input_immutability(ctx, rep):
                     rep.check(not hit, 'write at %s does not target a const input' % i.loc, i.loc, '%s writes into const parameter %s' % (base_name(f.name), hit[:1]),
                               detail=[str(h) for h in hit[:3]], key='CONST-1|%s|%s' % (base_name(f.name), hit[0][1:] if hit else ''))
         rep.instances(nw, 20, 'write sites')
+        rep.rule('IN-1', 'NUL-terminated inputs (phrase, password: the caller objects that reach utf8_nfkd_lazy as its source) are read only by the lazy normaliser front end and '
+                 'the injected normaliser it calls - whose byte-by-byte, terminator-bounded reading is decided by LAZY-1 / CUR-1; no other function loads from them or hands '
+                 'them to memcmp / memcpy / str* with a length of its own (such a read can run past the terminator of a short input)')
+        lazies = P.fns('utf8_nfkd_lazy')
+        strings = set()
+        for lz in lazies:
+            strings |= {o for o in pts.pts.get(('p', lz.name, 0), set()) if o[0] in ('ext', 'extdeep')}
+        rep.instances(len(strings), 2, 'string input objects')
+        lazy_closure = set()
+        for lz in lazies: lazy_closure |= set(P.reachable_from([lz.name]))
+        nr = 0
+        for f in P.defined.values():
+            if f.name in lazy_closure: continue
+            for i in f.all_insts():
+                srcs = []
+                if i.op == 'load': srcs = [i.ops[0]]
+                elif i.op == 'call' and not P.is_dbg(i):
+                    t = P.call_target(i)
+                    if t[0] == 'direct' and t[1] not in P.defined and not t[1].startswith('llvm.dbg') and not t[1].startswith('llvm.lifetime'):
+                        srcs = [a for a in i.ops if a['k'] in ('i', 'a')]
+                    elif t[0] == 'dep':
+                        srcs = [a for a in i.ops if a['k'] in ('i', 'a')]
+                for a in srcs:
+                    hit = [o for o in pts.of(f, a) if o in strings]
+                    if hit:
+                        nr += 1
+                        rep.fail('input strings are read only through utf8_nfkd_lazy', i.loc, '%s reads the caller\'s string itself (%s)' % (base_name(f.name), i.op if i.op == 'load' else P.call_target(i)[1]),
+                                 detail={'object': str(hit[0])}, key='IN-1|%s|%s' % (base_name(f.name), i.loc.split(':')[-1]))
+        if not nr: rep.ok('no reader of the input strings outside the lazy normaliser', {'string_objects': len(strings)})
         api_nonconst_seed = sorted(f.name for f in P.defined.values() if not f.local and f.name.startswith('polyseed_') and
                                    any(p['ty'] == '%' + DATA_STRUCT + '*' and not (f.d.get('param_const') or [False] * 9)[n] for n, p in enumerate(f.params))
                                    and f.d.get('visibility') != 'hidden' or (not f.local and cfg[2] == 'S' and f.name in ('polyseed_crypt', 'polyseed_free')))
